@@ -12,19 +12,19 @@
 import LpModel.Basic
 namespace Lp.C16
 
-structure V2 where
+@[ext] structure V2 where
   x : Rat
   y : Rat
   deriving DecidableEq, Repr
 
-structure V3 where
+@[ext] structure V3 where
   x : Rat
   y : Rat
   z : Rat
   deriving DecidableEq, Repr
 
 /-- 2×2 matrix, row major -/
-structure M2 where
+@[ext] structure M2 where
   a11 : Rat
   a12 : Rat
   a21 : Rat
@@ -32,7 +32,7 @@ structure M2 where
   deriving DecidableEq, Repr
 
 /-- 3×3 matrix as three rows -/
-structure M3 where
+@[ext] structure M3 where
   r1 : V3
   r2 : V3
   r3 : V3
